@@ -167,6 +167,16 @@ func checkC20Weights(c C20Case) (o Outcome) {
 	o.Evals = 2
 	o.Labels = []string{"oracle:weights", "iv:" + ref.Interval(c.Interval).String(), fmt.Sprintf("universe:%v", c.Universe != nil), fmt.Sprintf("mapping:%v", c.Mapping != ""),
 		fmt.Sprintf("filter:%v", c.ComFilter != "" || c.AccFilter != "")}
+	if c.Universe != nil {
+		depth, shared := 0, false
+		for class, coms := range c.Universe {
+			if n := strings.Count(class, ":") + 1; n > depth {
+				depth = n
+			}
+			shared = shared || (len(coms) > 1 && strings.Count(class, ":") >= 2)
+		}
+		o.Labels = append(o.Labels, fmt.Sprintf("universe-depth:%d", depth), fmt.Sprintf("deep-class-shared:%v", shared))
+	}
 	for _, r := range []knutio.Result{rw, rb} {
 		if r.TimedOut || r.Signaled || r.Panicked() {
 			o.Violation = V("crash", "knut %v: %s", wargs, r.Brief())
@@ -801,6 +811,12 @@ func drawC20Weights(t *rapid.T) C20Case {
 	all := sortedKeys(coms)
 	if rapid.IntRange(0, 1).Draw(t, "universe") == 0 {
 		classes := []string{"Equities", "Equities:US", "Cash", "Alternatives:Crypto", "Alternatives"}
+		if rapid.Bool().Draw(t, "deepClasses") {
+			// class paths of every depth from 1 to 8 (the universe file imposes no limit), several commodities per class
+			classes = []string{"Equities", "Equities:US", "Equities:US:Tech", "Equities:EU:Large:Value", "Alternatives:Crypto:L1:PoS:Major",
+				"Real:Estate:CH:ZH:City:Core", "Funds:Active:Global:Multi:Asset:Balanced:Growth", "Cash:Bank:CH:Retail:Sight:Salary:Main:Sub"}
+			classes = classes[rapid.IntRange(0, 5).Draw(t, "classFrom"):]
+		}
 		c.Universe = map[string][]string{}
 		for _, com := range all {
 			if rapid.IntRange(0, 4).Draw(t, "unclassified") == 0 {
